@@ -467,7 +467,7 @@ def check(run):
         if run.tier == "quick":
             nh, nfirst, nlater, rk, ncross = 30 * mult, 300, 200, 25, 10
         else:
-            nh, nfirst, nlater, rk, ncross = 400 * mult, 1 << 30, 0, 150, 60
+            nh, nfirst, nlater, rk, ncross = 400 * mult, 1 << 30, 0, 150, 40
         for h in range(nh):
             crc = run.rng.choice([0, 0, 1, 2, 3])
             growth = (h % 3 == 2) if run.tier == "quick" else run.rng.chance(1, 2)
